@@ -16,6 +16,8 @@ mod quorum;
 mod upgrade;
 mod upgrade_clap;
 mod validate;
+mod selfenc;
+mod clientread;
 
 use std::path::PathBuf;
 
@@ -39,6 +41,8 @@ fn main() {
         ("Quorum", quorum::generate),
         ("Upgrade", upgrade::generate),
         ("Validate", validate::generate),
+        ("SelfEnc", selfenc::generate),
+        ("ClientRead", clientread::generate),
     ];
     let mut failed = false;
     for (name, g) in gens {
